@@ -245,7 +245,7 @@ impl Prop for C17 {
             }
         }
         let sign = pick_feed_sign(r, &trees);
-        let scale = *r.pick(SCALES) / 4.25;
+        let scale = crate::feed::pick_scale(r, !trees.iter().any(|t| t.needs_positive_feed() || t.contains(K::Mul)));
         // 1% of runs are long (logic that only engages after thousands of updates)
         let long_run = r.chance(0.01);
         let n_events = if long_run { r.range(4_500, 12_000) } else { r.range(20, 600) };
